@@ -63,7 +63,7 @@ func vhBuildLong(ctx int, s []byte) vhCtx {
 		// the number of literal bytes after the window is symbolic: where the
 		// assembly loop runs out of input relative to the crossing symbol depends on it
 		t := verifrt.Int()
-		verifrt.Assume(t >= 0 && t <= verifrt.Param("TAIL"))
+		verifrt.Assume(t >= verifrt.Param("TAILLO") && t <= verifrt.Param("TAIL"))
 		t = verifrt.Concretize(t)
 		for i := 0; i < t; i++ {
 			vbFixedSym(tail, 'x')
@@ -103,11 +103,15 @@ func VerifAsmDiff() {
 	M := verifrt.Param("M")
 	s := verifrt.Bytes(n)
 	c := vhBuildLong(ctx, s)
-	ref := refInflate(c.stream, refOpts{strict: false, maxOut: M + c.preOut + 210, symStart: -1})
+	ro := refOpts{strict: false, maxOut: M + c.preOut + 210, symStart: -1}
+	if ctx == 4 {
+		// keep the window to what matters here: short-distance matches crossing the limit
+		ro.distCap = 2
+	}
+	ref := refInflate(c.stream, ro)
 	verifrt.Assume(ref.status != refTooLong && ref.status != refSkip)
 	if ctx == 4 {
-		// keep the window to what matters here: a short-distance match that crosses the limit
-		verifrt.Assume(ref.maxDist <= 2 && len(ref.out) >= c.preOut+3)
+		verifrt.Assume(len(ref.out) >= c.preOut+3)
 	}
 
 	run := func(level int) ([]byte, int, int) {
